@@ -18,14 +18,43 @@ RULE = (
     "exception) is bitwise equal to the result of the same program run alone. Bounded-exhaustive sweep: ALL schedules of length "
     "8 (quick) / 12 (thorough) for canonical 2-thread pairs (reported with exhaustive=true for that sub-space). Non-trivial = a "
     "context switch happens while >= 2 threads are inside a differentiation and at least one of them is nested; distinct by "
-    "(programs, schedule)."
+    "(programs, schedule). Programs grad1_bwd / nested_bwd route values through a user primitive whose VJP and JVP rules are yield points "
+    "(interleaved backward passes); shared_jvp / shared_args use operator objects built once per process with extra positional and keyword "
+    "arguments that differ between threads. threads_fine: the same programs with EVERY FUNCTION ENTRY INSIDE THE AUTOGRAD PACKAGE as an "
+    "additional yield point (sys.monitoring PY_START in the scheduled threads; the repository is not modified) and schedules of "
+    "(thread, run length) pairs - pre-emption between autograd's own calls, e.g. between an operator wrapper storing its arguments and "
+    "the trace reading them. Non-trivial there = a switch away from a thread stopped inside autograd's code."
 )
 
 KINDS = ["grad1", "nested", "fwd_rev", "rev_fwd", "hvp", "jacobian", "nested3", "nested_jvp", "nested_twice", "two_calls",
-         "shared_tjp", "shared_hvp_twice", "shared_grad"]
+         "shared_tjp", "shared_hvp_twice", "shared_grad", "grad1_bwd", "nested_bwd", "shared_jvp", "shared_args"]
 
 _TLS = __import__("threading").local()
 _SHARED = {}
+
+
+_YP = {}
+
+
+def ypass():
+    """A user primitive (identity) whose derivative rules are yield points: interleavings inside backward passes and JVP evaluation."""
+    if not _YP:
+        from autograd.extend import defjvp, defvjp, primitive
+
+        @primitive
+        def yp_identity(x):
+            return x * 1.0
+
+        def _yield(g):
+            s = getattr(_TLS, "s", None)
+            if s is not None:
+                s.yp()
+            return g
+
+        defvjp(yp_identity, lambda ans, x: _yield)
+        defjvp(yp_identity, lambda g, ans, x: _yield(g))
+        _YP["f"] = yp_identity
+    return _YP["f"]
 
 
 def shared_ops():
@@ -49,8 +78,16 @@ def shared_ops():
             s.yp(); s.leave()
             return y
 
+        def fk(x, c, k=2.0, *, e=1.0):
+            s = _TLS.s
+            s.enter(); s.yp()
+            y = anp.sum(anp.sin(x) * c + k * x ** 2) * e
+            s.yp(); s.leave()
+            return y
+
         _SHARED.update(tjp=do.tensor_jacobian_product(f), hvp=autograd.hessian_vector_product(fs), grad=autograd.grad(fs),
-                       vag=autograd.value_and_grad(fs), jac=autograd.jacobian(f))
+                       vag=autograd.value_and_grad(fs), jac=autograd.jacobian(f), mjvp=autograd.make_jvp(fs),
+                       gradk=autograd.grad(fk), egradk=autograd.elementwise_grad(fk), mjvpk=autograd.make_jvp(fk))
     return _SHARED
 
 
@@ -132,6 +169,60 @@ def make_prog(kind, a):
             r2 = autograd.grad(f)(0.9 + a)
             s.yp()
             return conv(onp.array([r1, r2]))
+    elif kind == "grad1_bwd":
+        def prog(s):
+            yp_ = ypass()
+
+            def f(x):
+                s.enter(); s.yp()
+                y = yp_(anp.sin(x) * x)
+                z = yp_(y + a * x) * x + y
+                s.yp(); s.leave()
+                return z
+            r = autograd.grad(f)(0.5 + a)
+            s.yp()
+            r2 = autograd.make_jvp(f)(0.3 + a)(1.0)[1]
+            return conv(onp.array([r, r2]))
+    elif kind == "nested_bwd":
+        def prog(s):
+            yp_ = ypass()
+
+            def outer(x):
+                s.enter(); s.yp()
+
+                def inner(y):
+                    s.enter()
+                    r = yp_(x * y) * y + a * yp_(y)
+                    s.leave()
+                    return r
+                gi = autograd.grad(inner)(x)
+                out = yp_(x * gi) + yp_(x) * a
+                s.yp(); s.leave()
+                return out
+            r = autograd.grad(outer)(1.0 + a)
+            s.yp()
+            return conv(r)
+    elif kind in ("shared_jvp", "shared_args"):
+        def prog(s):
+            ops = shared_ops()
+            x0 = onp.array([0.2, -0.4, 0.6, 1.1]) * (1.0 + a)
+            v = onp.array([1.0, 0.5, -1.0, 2.0]) * (0.5 + a)
+            if kind == "shared_jvp":
+                # the operator object and the function it returns are used at different times
+                j1 = ops["mjvp"](x0, a)
+                s.yp()
+                j2 = ops["mjvpk"](x0 + 0.1, a, 1.0 + a, e=2.0 * a)
+                s.yp()
+                r1 = j1(v)[1]
+                s.yp()
+                r2 = j2(v)[1]
+                return conv(onp.array([r1, r2]))
+            r1 = ops["gradk"](x0, a, 1.0 + a, e=2.0 * a)
+            s.yp()
+            r2 = ops["egradk"](x0, 2.0 * a, e=a)
+            s.yp()
+            r3 = ops["gradk"](x0, c=a)
+            return conv(onp.concatenate([r1, r2, r3]))
     elif kind in ("shared_tjp", "shared_hvp_twice", "shared_grad"):
         def prog(s):
             ops = shared_ops()
@@ -222,7 +313,14 @@ def make_prog(kind, a):
             r = autograd.grad(l1)(0.8 + a)
             s.yp()
             return conv(r)
-    return prog
+    def prog_tls(s, _prog=prog):
+        _TLS.s = s
+        try:
+            return _prog(s)
+        finally:
+            _TLS.s = None
+
+    return prog_tls
 
 
 def run_case(kinds, params, schedule):
@@ -247,6 +345,61 @@ def body(c):
     c.features.update(n=n, overlap=sch.overlap, nested_overlap=sch.nested_overlap)
     labels = [f"threads={n}"] + (["overlap"] if sch.overlap else []) + (["nested_overlap"] if sch.nested_overlap else [])
     return ok(nontrivial=sch.nested_overlap, key=json.dumps(sample), labels=labels, sample=sample)
+
+
+_FINE = {"installed": False}
+
+
+def _fine_events(on):
+    """Every function entry inside the autograd package becomes a yield point of the scheduled threads (sys.monitoring PY_START;
+    nothing in /repo is modified).  Switched on only while a fine-grained case runs."""
+    import os
+    import sys
+
+    import autograd
+
+    mon = sys.monitoring
+    tool = 2
+    if not _FINE["installed"]:
+        mon.use_tool_id(tool, "vh-preempt")
+        root = os.path.dirname(os.path.abspath(autograd.__file__)) + os.sep
+
+        def on_start(code, offset):
+            if not code.co_filename.startswith(root):
+                return mon.DISABLE
+            s = getattr(_TLS, "s", None)
+            if s is not None and s.fine:
+                s.yp(internal=True)
+
+        mon.register_callback(tool, mon.events.PY_START, on_start)
+        _FINE["installed"] = True
+    mon.set_events(tool, mon.events.PY_START if on else 0)
+
+
+def fine_body(c):
+    """Pre-emption inside autograd's own code: function entries of the package are yield points, the schedule is a list of
+    (thread, run length) pairs."""
+    n = c.int(2, 3)
+    kinds = [KINDS[c.int(0, len(KINDS) - 1)] for _ in range(n)]
+    params = [c.choice([0.25, 0.5, 0.75, 1.25]) for _ in range(n)]
+    schedule = [(c.int(0, n - 1), c.int(1, 60)) for _ in range(c.int(1, 40))]
+    sample = {"kinds": kinds, "params": params, "schedule": [list(p) for p in schedule], "fine": True}
+    progs = [make_prog(k, a) for k, a in zip(kinds, params)]
+    solo = [Sched(1, []).run([p])[0] for p in progs]
+    sch = Sched(len(progs), schedule)
+    sch.fine = True
+    _fine_events(True)
+    try:
+        got = sch.run(progs)
+    finally:
+        _fine_events(False)
+    for i, (a, b) in enumerate(zip(solo, got)):
+        if a != b:
+            return fail("interference", f"thread {i} ({kinds[i]}) obtained {summ(b)} but alone it obtains {summ(a)} (pre-emption at autograd function "
+                        f"entries, schedule {sample['schedule']})", "C20|interference|fine", sample=sample)
+    c.features.update(n=n, internal_switches=sch.internal_switches)
+    labels = [f"threads={n}", "fine"] + (["switch_inside_autograd"] if sch.internal_switches else []) + [f"yield_points>={min(sch.yields // 100 * 100, 1000)}"]
+    return ok(nontrivial=sch.internal_switches > 0, key=json.dumps(sample), labels=labels, sample=sample)
 
 
 def summ(r):
@@ -305,7 +458,9 @@ def sweep(tier, seed):
 
 PROP = Prop("C20", [
     Test("threads", body, quick=2400, thorough=20000, shard_size=150),
+    Test("threads_fine", fine_body, quick=600, thorough=6000, shard_size=40),
 ], RULE, assumptions=[
-    "the scheduler owns interleavings at the granularity of yield points placed in user code (function entry, between operations, before "
-    "return, between API calls); pre-emption inside a single autograd-internal statement is not explored",
+    "the scheduler owns interleavings at the granularity of yield points: in user code (function entry, between operations, before return, "
+    "between API calls, inside user derivative rules) and, in threads_fine, at every function entry inside the autograd package; pre-emption "
+    "between two bytecodes of one autograd function body is not explored",
 ], extra_main=sweep)
